@@ -1,7 +1,7 @@
 """C11 — channels and signals: every message delivered once, in order, no stranded peer (structural part)."""
 from core import strip, strip_parens, is_field, order_ge, key_str, key_mentions
 from facts import AnalysisBroken
-from rules import (nodeset, callpred, atom_from, reach, ev, Unevaluable, ret_const, is_var_load)
+from rules import (through_local, nodeset, callpred, atom_from, reach, ev, Unevaluable, ret_const, is_var_load)
 from props import c01, c16
 
 EXPLANATION = (
@@ -123,7 +123,7 @@ def check_signal(ctx, P):
         if w.find_path("entry", "exit", barrier=nodeset(clr)) is not None:
             bad = bad or "a path returns without resetting the signal to NO_WAITER"
         for y in w.calls("fiber_manager_yield"):
-            if w.guarded(y, lambda leaf, pol: strip(leaf) is c.node and pol is True) is not None:
+            if w.guarded(y, lambda leaf, pol: through_local(w, leaf) is c.node and pol is True) is not None:
                 bad = bad or "the fiber sleeps without having won the CAS"
             if w.find_path(y, "exit", barrier=nodeset(clr)) is not None:
                 bad = bad or "after the wake-up the signal is not reset"
